@@ -168,6 +168,10 @@ FINDINGS = {
     "D9": norm("a, a&b; b, a|b; c, c&d; d, c|d"),
     "D11": norm("a, !a; b, (!b&!c)|(b&!c)|(!b&c); c, !c&!b; d, (!d&!b&!c)|(!d&b&!c)|(d&b&!c)"),
     "D12": union(MAA_CORE, latch(1), latch(2), latch(3)),
+    # D11 shape that survives full expansion: the whole space is the only trap space, every variable is in the NFVS
+    "D11_minroot": norm("a, (!a & !b & !c) | (a & !b & !c) | (!a & !b & c) | (!a & b & c) | (a & b & c); "
+                        "b, (!a & !b & !c) | (a & !b & !c) | (a & !b & c) | (!a & b & c); "
+                        "c, (!a & b & !c) | (!a & !b & c) | (a & !b & c) | (a & b & c)"),
 }
 
 HAND = {
